@@ -28,21 +28,11 @@ def workloads(rng, shapes, tier):
                 ops.append("W")
         ops.append("W")
         ws.append(Fm.Workload(sh, rng.randrange(3), rng.choice((7, 9, 1000)), ops, "many-records"))
-    # run-structured: N identical records then a different one, so that the level streams hold runs of exactly N
-    # equal levels (8-value, 63/64-group and multi-byte-header boundaries of the RLE/bit-packed hybrid encoder)
-    ns = [7, 8, 9, 63, 64, 65, 127, 128, 129, 504, 505, 512, 513]
-    if tier == "quick":
-        ns = [8, 63, 64, 65, 128, 505, 512]
-    for sh in shapes:
-        if sh.name not in ("opt3", "boolopt"):
-            continue
-        full = S.gen_value(rng, sh.model_fields(), maxlist=2, pnull=0.0, extreme=0.3)
-        empty = S.gen_value(rng, sh.model_fields(), maxlist=0, pnull=1.0, extreme=0.3)
-        alt = [full, empty]
-        for n in ns:
-            for mx in (1000, n):
-                ws.append(Fm.Workload(sh, rng.randrange(3), mx, [full] * n + [empty, "W"], "run-of-%d" % n if n in (64, 505) else "run-structured"))
-            ws.append(Fm.Workload(sh, rng.randrange(3), 1000, [alt[i % 2] for i in range(n + 1)] + [full] * 9 + ["W"], "alternating"))
+    ws += Fm.run_structured_workloads(rng, shapes, tier)
+    # string values beyond 1 KiB / 64 KiB
+    ws += Fm.long_string_workloads(rng, shapes, sizes=(1100, 3000) if tier == "quick" else (1100, 3000, 70000))
+    # pages beyond 32 KiB (deflate window, read buffers): two numeric columns, 6000 records per page, and exact multiples of 32 KiB
+    ws += Fm.big_workloads(shapes, codecs=(2, 1) if tier == "quick" else (2, 1, 0), plans=((6000, 9000),) if tier == "quick" else ((6000, 9000), (4096, 8192)))
     return ws
 
 
